@@ -13,3 +13,28 @@ Definition chk_reb (c : N * list rop * list (list rout) * (nat * N * bool)) : bo
   let '(s, mo) := r_run_steps (r_init i) ops in
   list_eqb (list_eqb rout_eqb) mo outs && Nat.eqb (r_cycles s) cyc && N.eqb (r_range s) rng &&
   Bool.eqb (match r_phase s with POpen => true | _ => false end) opn.
+
+(* --- the signalling state of the real stream (server older than 5.5.0) at three points of a rebalance cycle --- *)
+From Verif Require Import Model.SerialClose.
+
+Definition b2n (b : bool) : nat := if b then 1%nat else 0%nat.
+(* what the wait() goroutines cannot change: signals posted (waiting or taken), the sweep's flag, the active count, stopped *)
+Definition sc_proj (s : sc) : nat * bool * nat * nat * bool :=
+  (sc_active s, sc_ending s, (sc_sig_end s + b2n (sc_fin_end s))%nat, (sc_sig_close s + b2n (sc_fin_close s))%nat, sc_stopped s).
+
+Definition proj_eqb (a b : nat * bool * nat * nat * bool) : bool :=
+  let '(a1, a2, a3, a4, a5) := a in let '(b1, b2, b3, b4, b5) := b in
+  Nat.eqb a1 b1 && Bool.eqb a2 b2 && Nat.eqb a3 b3 && Nat.eqb a4 b4 && Bool.eqb a5 b5.
+
+(* observed after the close sweep, after Rebalance() returned, after the reopen; the model runs the repaired code with a
+   wait() step after every other step *)
+Definition chk_signals (c : nat * list (nat * bool * nat * nat * bool)) : bool :=
+  let '(n, pts) := c in
+  let w := WaitTake false in
+  let s1 := sc_run true (sc_streaming n) ([SweepStart] ++ flat_map (fun o => [o; w]) (repeat SweepVb n) ++ [SweepEnd; w]) in
+  let s2 := sc_run true s1 [CloseTail; w] in
+  let s3 := sc_run true s2 [Reopen n; w; BalOff; w] in
+  match pts with
+  | [p1; p2; p3] => proj_eqb (sc_proj s1) p1 && proj_eqb (sc_proj s2) p2 && proj_eqb (sc_proj s3) p3
+  | _ => false
+  end.
